@@ -8,7 +8,10 @@ verdict is what the model is given), and drives the real DlmsConnection.
 """
 import os
 
+import contextlib
+
 from harness import framework as fw
+from harness import refcrypto
 from harness.props.c20 import CONF_NAMES
 
 KINDS = ["aarq", "rlrq", "getReq", "getNext", "setReq", "actReq", "aare", "rlre", "getRespNormal", "getRespErr", "getRespBlock",
@@ -29,8 +32,15 @@ ALIASES = {"exceptionRespIc": "exceptionResp",           # exception-response ca
            "getRespLastBlockErrFF": "getRespLastBlockErr"}
 
 
+def base_kind(kind):
+    """`getReq@id5+unconf+low+sel`: a variant of a kind - same class for the state machine and for the model, other field values
+    (invoke-id 5, service class unconfirmed, normal priority, with a selective-access descriptor)."""
+    return kind.split("@")[0]
+
+
 def unalias(tok):
     import re
+    tok = re.sub(r"@[A-Za-z0-9+]+", "", tok)
     for a, b in sorted(ALIASES.items(), key=lambda x: -len(x[0])):
         tok = tok.replace("s." + a, "s." + b)
     return re.sub(r"emptyaad,[0-9a-f,]*", "junk", tok)       # (a forged tag is, symbolically, no MAC at all)
@@ -91,6 +101,23 @@ def sample_object(kind, variant=0, size=None):
     from dlms_cosem import cosem, enumerations as en
     from dlms_cosem.protocol import acse, xdlms
     from dlms_cosem.protocol.xdlms.data_notification import LongInvokeIdAndPriority
+    if "@" in kind:
+        kind, _, var = kind.partition("@")
+        o = sample_object(kind, variant, size)
+        toks = var.split("+")
+        iip = getattr(o, "invoke_id_and_priority", None)
+        if iip is not None and not isinstance(iip, LongInvokeIdAndPriority):
+            from dlms_cosem.protocol.xdlms.invoke_id_and_priority import InvokeIdAndPriority
+            iid = [int(t[2:]) for t in toks if t.startswith("id")]
+            o.invoke_id_and_priority = InvokeIdAndPriority(iid[0] if iid else iip.invoke_id, "unconf" not in toks, "low" not in toks)
+        if "sel" in toks and hasattr(o, "access_selection"):
+            import datetime
+            from dlms_cosem.protocol.xdlms import selective_access as sa
+            o.cosem_attribute = cosem.CosemAttribute(en.CosemInterface.PROFILE_GENERIC, cosem.Obis(1, 0, 99, 1, 0, 255), 2)
+            o.access_selection = sa.RangeDescriptor(
+                restricting_object=sa.CaptureObject(cosem.CosemAttribute(en.CosemInterface.CLOCK, cosem.Obis(0, 0, 1, 0, 0, 255), 2), 0),
+                from_value=datetime.datetime(2020, 1, 1, 0, 0), to_value=datetime.datetime(2020, 1, 6, 0, 0))
+        return o
     attr = cosem.CosemAttribute(en.CosemInterface.REGISTER, cosem.Obis(1, 0, 1, 8, 0, 255), 2)
     meth = cosem.CosemMethod(en.CosemInterface.ASSOCIATION_LN, cosem.Obis(0, 0, 40, 0, 0), 1)
     payload = bytes([9, 4 + variant % 3]) + bytes(range(4 + variant % 3))
@@ -196,8 +223,8 @@ class Meter:
             self.macs[b] = "junk"
             return b
         _, kid, klen, title, ic, sc, akid, aklen, chal = f
-        b = security.gmac(security.SecurityControlField.from_bytes(bytes([int(sc)])), bytes.fromhex(title), int(ic),
-                          key_bytes(int(kid), int(klen)), key_bytes(int(akid), int(aklen)), bytes.fromhex(chal))
+        b = refcrypto.gmac(int(sc), bytes.fromhex(title), int(ic), key_bytes(int(kid), int(klen)), key_bytes(int(akid), int(aklen)),
+                           bytes.fromhex(chal))
         self.macs[bytes(b)] = m
         return bytes(b)
 
@@ -213,8 +240,7 @@ class Meter:
         _, kid, klen, title, ic, sc, akid, aklen = f[:8]
         inner = ":".join(f[8:])
         plain = self.inner_bytes(inner)
-        b = security.encrypt(security.SecurityControlField.from_bytes(bytes([int(sc)])), bytes.fromhex(title), int(ic),
-                             key_bytes(int(kid), int(klen)), plain, key_bytes(int(akid), int(aklen)))
+        b = refcrypto.seal(int(sc), bytes.fromhex(title), int(ic), key_bytes(int(kid), int(klen)), plain, key_bytes(int(akid), int(aklen)))
         self.ciphers[bytes(b)] = unalias(tok)
         return bytes(b)
 
@@ -391,7 +417,7 @@ class Session:
             if ek is None or ak is None:
                 return "junk:0"
             try:
-                p = security.decrypt(security.SecurityControlField.from_bytes(bytes([scb])), title, ic, ek, ct, ak)
+                p = refcrypto.open_(scb, title, ic, ek, ct, ak)
             except Exception:
                 return "junk:0"
             if bytes(p) != bytes(expect_plain):
@@ -422,14 +448,16 @@ class Session:
     def make_event(self, kind, has_ui, size=None):
         from dlms_cosem.protocol import acse
         from dlms_cosem import enumerations as en
-        if kind == "aarq" and int(has_ui) == 2:
+        if kind == "aarq" and int(has_ui) in (2, 3):
             # an AARQ the caller builds itself (application context without ciphering, plain InitiateRequest):
             # with keys set the connection still has to cipher the InitiateRequest
             from dlms_cosem.protocol import xdlms
             return acse.ApplicationAssociationRequest(
                 ciphered=False, system_title=self.conn.client_system_title,
                 user_information=acse.UserInformation(xdlms.InitiateRequest(
-                    proposed_conformance=self.conn.conformance, client_max_receive_pdu_size=self.conn.max_pdu_size)))
+                    proposed_conformance=self.conn.conformance, client_max_receive_pdu_size=self.conn.max_pdu_size,
+                    # (3: the caller announces a dedicated key; everything is still protected with the configured global keys)
+                    dedicated_key=key_bytes(11, len(self.conn.global_encryption_key or bytes(16))) if int(has_ui) == 3 else None)))
         if kind == "aarq":
             return self.conn.get_aarq()
         if kind == "rlrq":
@@ -440,6 +468,7 @@ class Session:
 
     def send(self, kind, has_ui=True, size=None):
         ev = self.make_event(kind, has_ui, size)
+        kind = base_kind(kind)
         ui_plain = None
         if kind in ("aarq", "rlrq") and getattr(ev, "user_information", None) is not None:
             ui_plain = ev.user_information.content.to_bytes()
@@ -471,10 +500,8 @@ class Session:
                    f"{self.cfg.ak[0]},{self.cfg.ak[1]},{fw.hx(self.conn.meter_to_client_challenge)}")
             from dlms_cosem import security
             # the harness's own verification must not go through a nonce observer installed on security.gmac
-            gmac = getattr(security, "_verif_original_gmac", security.gmac)
-            want = gmac(security.SecurityControlField.from_bytes(b[:1]), bytes.fromhex(self.cfg.title),
-                                 int.from_bytes(b[1:5], "big"), key_bytes(*self.cfg.ek), key_bytes(*self.cfg.ak),
-                                 self.conn.meter_to_client_challenge)
+            want = refcrypto.gmac(b[0], bytes.fromhex(self.cfg.title), int.from_bytes(b[1:5], "big"), key_bytes(*self.cfg.ek),
+                                  key_bytes(*self.cfg.ak), self.conn.meter_to_client_challenge)
             if mac != bytes(want) or len(b) != 17:
                 tok = "junk"
             return f"ok {b[0]} {int.from_bytes(b[1:5], 'big')} {tok}"
@@ -511,12 +538,13 @@ def run_history(cfg_json, ops):
     real = []
     for op in ops:
         if op[0] == "send":
-            lines.append(f"conn send {op[1]} {min(int(op[2]), 1)}")
+            lines.append(f"conn send {base_kind(op[1])} {min(int(op[2]), 1)}")
             real.append(None)
         elif op[0] == "recv":
             b = transform_bytes(meter.input_bytes(list(op[1])), op[2] if len(op) > 2 else None)
             real.append(b)
-            lines.append("conn recv " + meter.describe(b))
+            with contextlib.redirect_stdout(fw._DEVNULL):       # (the library has stray print() calls)
+                lines.append("conn recv " + meter.describe(b))
         else:
             lines.append("conn hls")
             real.append(None)
